@@ -90,7 +90,7 @@ def check_create_arcs(chk, rep, repo):
             ok_init = ok_init and alloc_ev and not alloc_ev[0].loops
             rep.fn("ARCS-init", fn, f"{name} starts from zeros(k), once per call", bool(ok_init),
                    f"the {name} array is '{show(arr)}'", line=ro.line)
-            rets = [e for e in w.events if e.kind == "return"]
+            rets = [e for e in w.events if e.kind == "return" and e.fn is w.entry]
             rep.fn("ARCS-return", fn, "the per-rank maxima are returned", len(rets) == 1 and rets[0].value == arr,
                    "create_arcs must return the per-rank maxima")
         else:
